@@ -80,6 +80,7 @@ type Engine struct {
 	sentinelDone map[string]bool
 	factDone     map[string]bool
 	interior     map[string]*interiorCand
+	privateHeaps map[string]string // heap name -> package path whose unexported type makes the heap inaccessible to other packages
 }
 
 type storeRec struct {
@@ -242,6 +243,20 @@ func (e *Engine) havocAll(st *State, why string) {
 	e.sc.assert("(>= " + e.allocCounter(st) + " " + oldAlloc + ")")
 	// the allocation counter only grows
 	e.note("havoc of all heaps at: " + why)
+}
+
+// havocAllExcept: like havocAll, but heaps selected by keep retain their content.
+func (e *Engine) havocAllExcept(st *State, why string, keep func(name string) bool) {
+	kept := map[string]string{}
+	for n, srt := range e.heapSorts {
+		if keep(n) {
+			kept[n] = e.heapIn(st, n, srt)
+		}
+	}
+	e.havocAll(st, why)
+	for n, t := range kept {
+		st.Heaps[n] = t
+	}
 }
 
 const allocHeap = "$alloc"
